@@ -5,15 +5,16 @@
 id=$1; wt=$2; out=$3; shift 3
 checks=${*:-$(echo $id | cut -c1-3)}
 cd $wt || exit 2
+mkdir -p ${SEEDLOGS:-/tmp/seedlogs}
 git diff -- rtrlib third-party > $out/patch.diff
 echo "== patch: $(grep -c '^[+-][^+-]' $out/patch.diff) changed lines in $(grep '^+++ ' $out/patch.diff | sed 's/+++ b\///' | tr '\n' ' ')"
 (cmake -G Ninja -B _build -DCMAKE_BUILD_TYPE=Debug -DUNIT_TESTING=ON >/dev/null 2>&1; cmake --build _build 2>&1 | tail -2) 
 ctest --test-dir _build -j8 --timeout 900 2>&1 | grep -E "tests passed|Failed|\*\*\*" | tr '\n' ' '; echo
-echo "== demo with change:"; sh $out/run.sh $wt >/tmp/s5/logs/$id.demo_with 2>&1; echo "rc=$? $(tail -1 /tmp/s5/logs/$id.demo_with)"
-git stash -q -- rtrlib third-party
-echo "== demo without change:"; sh $out/run.sh $wt >/tmp/s5/logs/$id.demo_without 2>&1; echo "rc=$? $(tail -1 /tmp/s5/logs/$id.demo_without)"
-git stash pop -q
+echo "== demo with change:"; sh $out/run.sh $wt >${SEEDLOGS:-/tmp/seedlogs}/$id.demo_with 2>&1; echo "rc=$? $(tail -1 ${SEEDLOGS:-/tmp/seedlogs}/$id.demo_with)"
+git apply -R $out/patch.diff
+echo "== demo without change:"; sh $out/run.sh $wt >${SEEDLOGS:-/tmp/seedlogs}/$id.demo_without 2>&1; echo "rc=$? $(tail -1 ${SEEDLOGS:-/tmp/seedlogs}/$id.demo_without)"
+git apply $out/patch.diff
 for c in $checks; do
   echo "== check $c against the change:"
-  (cd /verif && VERIF_REPO=$wt VERIF_COV= timeout 3000 python3 tools/check.py $c quick > /tmp/s5/logs/$id.check_$c 2>&1; echo "rc=$?"; grep -E "VIOLATION|^\[C" /tmp/s5/logs/$id.check_$c | head -8)
+  (cd /verif && VERIF_REPO=$wt VERIF_COV= timeout 3000 python3 tools/check.py $c quick > ${SEEDLOGS:-/tmp/seedlogs}/$id.check_$c 2>&1; echo "rc=$?"; grep -E "VIOLATION|^\[C" ${SEEDLOGS:-/tmp/seedlogs}/$id.check_$c | head -8)
 done
